@@ -1,6 +1,7 @@
 (* C15 -- Statistics files round-trip and detect any drift.  Property theorems only. *)
 From Coq Require Import List NArith Bool.
 From FP Require Import Model.Base Model.Collector Model.StatsCmp Model.StatsTree Proofs.Interleave Proofs.C05_proofs Proofs.C15_proofs.
+From FP Require Import Model.Rdh Model.Scanner Model.System Spec.Framing Spec.GroundTruth Proofs.C03_proofs Proofs.C07_run Proofs.C14_proofs Proofs.C05_run Proofs.C15_run.
 From FP Require Gen.Facts.
 Import ListNotations.
 Open Scope N_scope.
@@ -81,6 +82,23 @@ Proof. exact c15_file_refuted. Qed.
 Theorem C15_nonvacuous : sc_wf (tree_of true cinit) /\ sc_wf (tree_of false cinit) /\ all_ok = true.
 Proof. exact c15_nonvacuous. Qed.
 
+(* TWO WHOLE RUNS on the same well-framed input with the same options, under ANY two thread schedules (any two arrival orders of the
+   run's own sender streams): the statistics tree the one run ends with is accepted by the comparison of the other without a mismatch,
+   and the two runs show the same messages and exit with the same status (C05_whole_run + the reflexivity of the comparison over the
+   regenerated field lists) *)
+Theorem C15_whole_runs_agree : forall c pkts,
+  Forall wf_pkt pkts -> N.of_nat (length pkts) < U32_MAX -> pay_all pkts < U32_MAX ->
+  (sc_skip (rc_scan c) = true \/ forall p, In p pkts -> layout_rp (hdr p) (p_payload p)) ->
+  (forall p r, pkts = p :: r -> known_sysid (r_system_id (hdr p)) = true) ->
+  forall ff a1 a2 s1 sh1 e1 s2 sh2 e2 alp,
+  Interleave (sender_streams c (serialize pkts)) a1 -> Interleave (sender_streams c (serialize pkts)) a2 ->
+  run_check_sched ff c (serialize pkts) a1 = R_done s1 sh1 e1 -> run_check_sched ff c (serialize pkts) a2 = R_done s2 sh2 e2 ->
+  sc_validate sleaf_eqb L_sub (tree_of alp s1) (tree_of alp s2) = [] /\ sh1 = sh2 /\ e1 = e2.
+Proof.
+  exact (fun c pkts => c15_whole_run true eq_refl eq_refl c pkts (eq_refl : Gen.Facts.cdp_offset_sampled_after = true)
+                                     (eq_refl : Gen.Facts.error_sort_when_muted = true)).
+Qed.
+
 Print Assumptions C15_field_lists_complete.
 Print Assumptions C15_no_mismatch_iff_same_statistics.
 Print Assumptions C15_reflexive.
@@ -100,3 +118,4 @@ Print Assumptions C15_refuted_dropped_field.
 Print Assumptions C15_refuted_crossed_fields.
 Print Assumptions C15_refuted_file_not_replaced.
 Print Assumptions C15_nonvacuous.
+Print Assumptions C15_whole_runs_agree.
